@@ -274,6 +274,7 @@ func (r *replicator) processItems(ctx context.Context, wg *sync.WaitGroup, items
 				wg.Done()
 			}(item)
 		}
+		verifhook.At("replicator.next.queued", r, item.GetHash())
 		r.muProcess.Unlock()
 	}
 
@@ -389,6 +390,7 @@ func (r *replicator) waitForProcessSlot(ctx context.Context, e processItem) erro
 	r.queue.Remove(e)
 	r.tasks[e.GetHash()] = stateFetching
 
+	verifhook.At("replicator.slot.acquired", r, e.GetHash())
 	r.muProcess.Unlock()
 	verifhook.At("replicator.dequeued", r, e.GetHash())
 	return nil
@@ -410,6 +412,7 @@ func (r *replicator) processEntryDone(item processItem) {
 	// signal that a process slot is available
 	r.sem.Release(1)
 
+	verifhook.At("replicator.done", r, item.GetHash())
 	r.muProcess.Unlock()
 }
 
@@ -431,6 +434,7 @@ func (r *replicator) processEntryFailed(item processItem) {
 	// signal that a process slot is available
 	r.sem.Release(1)
 
+	verifhook.At("replicator.failed", r, item.GetHash())
 	r.muProcess.Unlock()
 }
 
